@@ -90,6 +90,31 @@ def run(ctx):
         ctx.evaluations += 1
         check_limit_outputs(ctx, c, st, outs[c])
     ctx.suites["LIMIT-PROPERTY"] = {"cases": len(lc)}
+    # one update() call with a single slice longer than 4 GiB (release build; ~4.3 GB of zero pages)
+    hr = ctx.harness("release")
+    if hr is not None:
+        huge = [("hist N uzero %d l fd u x0102 l fd" % (2 ** 32 + 100), 2 ** 32 + 100),
+                ("hist S u x000000 uzero %d l fd" % (2 ** 32 - 3), 2 ** 32)]
+        if ctx.tier == "thorough":
+            huge.append(("hist LL uzero %d l f 30 uzero 5 l f 30" % (gc.MAX - 2), gc.MAX - 2))
+        ho = core.run_cases(hr, [h[0] for h in huge], tag="c11h", timeout=1500, shards=3)
+        for (c, n0), o in zip(huge, ho):
+            ctx.evaluations += 1
+            ctx.nontrivial.add(c)
+            obs = o.split(" | ")
+            if n0 >= 2 ** 32:
+                ok = len(obs) >= 2 and obs[0] == "none" and obs[1] == "err TooLargeInput" and all(
+                    x in ("none", "err TooLargeInput") for x in obs)
+                exp = "processed_len None and TooLargeInput"
+            else:
+                ok = len(obs) == 4 and obs[0] == "some %d" % n0 and obs[1] != "err TooLargeInput" and \
+                    obs[2] == "some %d" % (n0 + 5) and obs[3] == "err TooLargeInput"
+                exp = "exact lengths, TooLargeInput only after MAX"
+            if not ok:
+                ctx.violations.append({"suite": "HUGE-SLICE", "case": c, "impl": o[:300], "config": "release",
+                                       "what": "a single update() slice of %d bytes: expected %s" % (n0, exp)})
+        ctx.suites["HUGE-SLICE"] = {"cases": len(huge), "outputs": ho}
+        ctx.samples.append({"suite": "HUGE-SLICE", "case": huge[0][0], "impl": ho[0]})
     if ctx.tier == "thorough":
         real = []
         for v in ("N", "S"):
